@@ -764,6 +764,44 @@ func (ke *kEval) checkImage(pt crashPoint, f *Fault, img string, vs []variant, r
 			return rtrace
 		}
 	}
+	// the crash hit an operation that ran an offline migration: the operator runs it again.
+	// Afterwards every index is rebuilt from its log, so that what the log files hold shows.
+	if pt.Op >= 1 && pt.Op <= len(ke.plan.Ops) {
+		for _, tool := range ke.plan.Ops[pt.Op-1].Tools {
+			if tool != "migrate1" && tool != "migrate2" {
+				continue
+			}
+			kv := klevdb.V2
+			if tool == "migrate1" {
+				kv = klevdb.V1
+			}
+			ko := klevdb.Options{KeyIndex: cfg.Keys, TimeIndex: cfg.Times}
+			if e := guard(func() error { return klevdb.Migrate(img, ko, kv) }); e != nil {
+				ke.report(pt, f, "migrate-again-failed|"+errKind(e), "running %s again on the recovered directory failed: %v", tool, e)
+				return rtrace
+			}
+			for _, ix := range indexFiles(img) {
+				_ = os.Remove(ix)
+			}
+			var l4 klevdb.Log
+			if e := guard(func() error {
+				var e error
+				l4, e = klevdb.Open(img, ke.recOpts())
+				return e
+			}); e != nil {
+				ke.report(pt, f, "open-after-migrate-again-failed|"+errKind(e), "Open after running %s again failed: %v", tool, e)
+				return rtrace
+			}
+			R3, _, diag := scanLog(l4, 5, int(pn)*2+50)
+			_ = guard(func() error { return l4.Close() })
+			if diag != "" || diffLive(R3, want) != "" {
+				ke.report(pt, f, "scan-after-migrate-again", "after running %s again (indexes rebuilt from the logs) the scan is wrong: %s %s", tool, diag, diffLive(R3, want))
+				return rtrace
+			}
+			ke.res.Probes["migrate_again_after_crash"]++
+			break
+		}
+	}
 	return rtrace
 }
 
